@@ -20,6 +20,7 @@ import (
 	"os"
 	"runtime/debug"
 	"sort"
+	"strconv"
 	"strings"
 	"sync"
 	"testing"
@@ -827,6 +828,88 @@ func vThValueHelpers(r *rand.Rand, x *vThRun, n int) {
 	}
 }
 
+// vThRegister (C15 at the text surface): the Redis-style value commands read back what was written — SET / GETSET then GET on the real
+// text handlers of a leader node, values incl. the empty string, digits, CR LF inside, 300 bytes. The engine-level register semantics
+// are M-VALUE's; this part checks the reply WRITERS (bulk string framing of the stored value, nil for "no value").
+func vThRegister(r *rand.Rand, x *vThRun, n int) {
+	vals := []string{"", "a", "0", "12", "-7", "x\r\ny", strings.Repeat("v", 90), " ", "nil", "\x00\x01"}
+	bulk := func(v string) string { return fmt.Sprintf("$%d\r\n%s\r\n", len(v), v) }
+	// one complete RESP reply (the capture is filled by a reader goroutine: wait for the whole frame, at most 300 ms)
+	complete := func(b string) bool {
+		if !strings.HasSuffix(b, "\r\n") {
+			return false
+		}
+		if strings.HasPrefix(b, "$") && !strings.HasPrefix(b, "$-1") {
+			i := strings.Index(b, "\r\n")
+			n, err := strconv.Atoi(b[1:i])
+			return err == nil && len(b) >= i+2+n+2
+		}
+		return true
+	}
+	ask := func(args ...string) (string, string) {
+		x.calls++
+		_ = x.env.takeReply() // nothing of an earlier exchange
+		res := x.env.call(args[0], args)
+		rep := ""
+		for w := 0; w < 150; w++ {
+			rep += string(x.env.takeReply())
+			if complete(rep) {
+				break
+			}
+			time.Sleep(2 * time.Millisecond)
+		}
+		return res, rep
+	}
+	for it := 0; it < 40+2*n; it++ {
+		x.reuse()
+		key := fmt.Sprintf("rk%d", it)
+		cur, has := "", false
+		steps := 3 + r.Intn(5)
+		var hist []string
+		for st := 0; st < steps; st++ {
+			v := vals[r.Intn(len(vals))]
+			var res, rep, want, cmd string
+			switch r.Intn(3) {
+			case 0:
+				cmd = "SET " + strconv.Quote(v)
+				res, rep = ask("SET", key, v)
+				want = "+OK\r\n"
+				if res == "ok" && rep == want {
+					cur, has = v, true
+				}
+			case 1:
+				cmd = "GETSET " + strconv.Quote(v)
+				res, rep = ask("GETSET", key, v)
+				want = "$-1\r\n"
+				if has {
+					want = bulk(cur)
+				}
+				if res == "ok" {
+					cur, has = v, true
+				}
+			default:
+				cmd = "GET"
+				res, rep = ask("GET", key)
+				want = "$-1\r\n"
+				if has {
+					want = bulk(cur)
+				}
+			}
+			hist = append(hist, cmd)
+			rec := "# register " + key + " " + cmd
+			x.out.emit(rec, rec)
+			if res != "ok" || !complete(rep) {
+				break // panics / waits are the other parts' subject; an uncaptured reply (written past the harness's capture) is not judged
+			}
+			if rep != want {
+				x.report("C15:text-value-read-back-differs", fmt.Sprintf("after %v on key %s the reply is %q, the value written last makes it %q", hist, key, rep, want),
+					map[string]interface{}{"key": key, "history": hist})
+				break
+			}
+		}
+	}
+}
+
 func init() {
 	vModes["texthandlers"] = func(t *testing.T) {
 		seed := int64(vEnvInt("VERIF_SEED", 1))
@@ -854,6 +937,10 @@ func init() {
 		if part == "" || part == "values" {
 			vThValueHelpers(rand.New(rand.NewSource(seed+3)), x, n)
 			lap("values")
+		}
+		if part == "" || part == "register" {
+			vThRegister(rand.New(rand.NewSource(seed+4)), x, n)
+			lap("register")
 		}
 		fmt.Printf("texthandlers: %d calls, %d legitimate engine waits, signatures %v\n", x.calls, x.waits, x.seen)
 	}
